@@ -281,8 +281,13 @@ class ExecGen:
                 # selector is an object/component; the associate name may shadow an outer one
                 cands = [(f"{o}%mid", "mid_t") for o in self.s.objs]
                 cands += [(f"{nm_}%inner", "inner_t") for nm_, ty_ in self.tb_assoc if ty_ == "mid_t"]
-                sel, ty = ch.choice(cands)
-                nm = ch.choice(["p", "q"])      # deliberately reused: inner associations shadow outer ones
+                inner_cands = [c for c in cands if c[1] == "inner_t" and "%inner" in c[0] and c[0].split("%")[0] in ("p", "q")]
+                if inner_cands and ch.bool(2, 3):
+                    sel, ty = ch.choice(inner_cands)
+                    nm = sel.split("%")[0]      # associate (p => p%inner): the new p shadows the outer p
+                else:
+                    sel, ty = ch.choice(cands)
+                    nm = ch.choice(["p", "q"])      # deliberately reused: inner associations shadow outer ones
                 if any(sel.startswith(x + "%") for x, _ in self.tb_assoc if x == nm):
                     self.forms.add("associate-shadows-itself")
                 out.append(f"associate ({nm} => {sel})")
@@ -290,7 +295,10 @@ class ExecGen:
                 saved = [x for x in self.tb_assoc]
                 # names hidden by this association must not be used as if they had their outer meaning
                 self.tb_assoc = [x for x in self.tb_assoc[:-1] if x[0] != nm] + [(nm, ty)]
-                out.append(self.tb_call())
+                # a call through the new name, then anything else
+                self.calls.add(f"{ty}%run")
+                self.forms.add("type-bound-call")
+                out.append(f"call {nm}%run()")
                 out += self.block(depth + 1)
                 self.tb_assoc = saved[:-1]
                 out.append("end associate")
